@@ -25,6 +25,26 @@ Definition wcls_eqb (a b : wcls) : bool := if wcls_dec a b then true else false.
 Lemma wcls_eqb_eq : forall a b, wcls_eqb a b = true -> a = b.
 Proof. intros a b. unfold wcls_eqb. destruct (wcls_dec a b); [auto|discriminate]. Qed.
 
+(* ---------------------------------------------------------------- shift-operator spellings across configurations
+   fx_pre is the widest reading (a word that merely starts with one of the eight operators): a word that is not
+   shift-like under fx_pre is not shift-like under any configuration, so the finite sweeps below run once. *)
+Definition fx_pre : fixes := mkfx false false true false.
+Lemma shift_split_mono : forall fx w, shift_split fx_pre w = None -> shift_split fx w = None.
+Proof.
+  intros fx w H. unfold shift_split in *.
+  set (P := fun op : string => prefix_of op (lower w)) in *.
+  assert (E : filter P (shift_ops fx_pre) = []).
+  { destruct (filter P (shift_ops fx_pre)); [reflexivity|]. simpl in H. discriminate. }
+  unfold shift_ops in *. cbn [fx_sxtx fx_pre] in E. rewrite filter_app in E. apply app_eq_nil in E. destruct E as [E1 E2].
+  rewrite filter_app, E1. simpl app.
+  destruct (fx_sxtx fx); [rewrite E2|]; reflexivity.
+Qed.
+Lemma hsp_mono : forall fx w, has_shift_prefix fx_pre w = false -> has_shift_prefix fx w = false.
+Proof.
+  intros fx w H. unfold has_shift_prefix in *. apply orb_false_iff in H. destruct H as [H1 H2]. rewrite H2, orb_false_r.
+  destruct (shift_split fx_pre w) eqn:E; [discriminate|]. rewrite (shift_split_mono fx w E). reflexivity.
+Qed.
+
 (* ---------------------------------------------------------------- the finite register universe *)
 Definition all_pres : list ascii := (scalar_pres ++ vec_pres ++ pred_pres)%list.
 Definition all_arrs : list (option (string * ascii)) :=
@@ -35,7 +55,7 @@ Definition kind_of (r : wreg) : rkind := if is_pred r then KPred else if is_vec 
 
 Definition reg_fact (r : wreg) : bool :=
   andb (wcls_eqb (classify (reg_word r)) (CReg (den_wreg r) (kind_of r)))
-  (andb (negb (has_shift_prefix (reg_word r)))
+  (andb (negb (has_shift_prefix fx_pre (reg_word r)))
   (andb (Z.eqb (dec_val (nat_str (w_num r))) (Z.of_nat (w_num r)))
   (andb (String.eqb (r_name (den_wreg r)) (nat_str (w_num r))) (word_ok (reg_word r))))).
 
@@ -79,9 +99,9 @@ Proof.
   intros r H. pose proof (reg_facts r H) as F. unfold reg_fact in F. apply andb_true_iff in F. destruct F as [F _].
   apply wcls_eqb_eq. exact F.
 Qed.
-Lemma reg_no_shift : forall r, wreg_okb r = true -> has_shift_prefix (reg_word r) = false.
+Lemma reg_no_shift : forall fx r, wreg_okb r = true -> has_shift_prefix fx (reg_word r) = false.
 Proof.
-  intros r H. pose proof (reg_facts r H) as F. unfold reg_fact in F. apply andb_true_iff in F. destruct F as [_ F].
+  intros fx r H. apply hsp_mono. pose proof (reg_facts r H) as F. unfold reg_fact in F. apply andb_true_iff in F. destruct F as [_ F].
   apply andb_true_iff in F. destruct F as [F _]. apply negb_true_iff in F. exact F.
 Qed.
 Lemma reg_num_val : forall r, wreg_okb r = true -> dec_val (r_name (den_wreg r)) = Z.of_nat (w_num r).
@@ -101,7 +121,7 @@ Qed.
 (* ---------------------------------------------------------------- the finite alias / condition / extend spellings *)
 Definition sp_fact (w : string) : bool :=
   andb (wcls_eqb (classify w) (CReg (plain "x" "sp") KSp))
-  (andb (negb (has_shift_prefix w))
+  (andb (negb (has_shift_prefix fx_pre w))
         (String.eqb (mem_base_name (plain "x" "sp") KSp w) (den_base_name (BSp w)))).
 Lemma sp_facts : forall w, mem_str w sp_words = true -> sp_fact w = true.
 Proof.
@@ -109,27 +129,30 @@ Proof.
   repeat (destruct H as [<-|H]; [vm_compute; reflexivity|]). destruct H.
 Qed.
 Definition zr_fact (w : string) : bool :=
-  andb (wcls_eqb (classify w) (CReg (den_wregop (RZr w)) KZr)) (negb (has_shift_prefix w)).
+  andb (wcls_eqb (classify w) (CReg (den_wregop (RZr w)) KZr)) (negb (has_shift_prefix fx_pre w)).
 Lemma zr_facts : forall w, mem_str w zr_words = true -> zr_fact w = true.
 Proof.
   intros w H. apply mem_str_In in H. unfold zr_words in H. simpl in H.
   repeat (destruct H as [<-|H]; [vm_compute; reflexivity|]). destruct H.
 Qed.
 Definition cond_fact (w : string) : bool :=
-  andb (wcls_eqb (classify w) (CCond (upper w))) (negb (has_shift_prefix w)).
+  andb (wcls_eqb (classify w) (CCond (upper w))) (negb (has_shift_prefix fx_pre w)).
 Lemma cond_facts : forall w, mem_str w cond_words = true -> cond_fact w = true.
 Proof.
   intros w H. apply mem_str_In in H.
   assert (F : forallb cond_fact cond_words = true) by (vm_compute; reflexivity).
   rewrite forallb_forall in F. exact (F w H).
 Qed.
-Definition ext_fact (op : string) : bool :=
-  andb (match shift_split op with Some (o, EmptyString) => andb (String.eqb o (lower op)) (mem_str o valid_shift_ops) | _ => false end)
+(* every spelling of an extend operator of configuration fx is read by that configuration as the whole-word
+   operator, and it is one that scales the index *)
+Definition ext_fact (fx : fixes) (op : string) : bool :=
+  andb (match shift_split fx op with Some (o, EmptyString) => andb (String.eqb o (lower op)) (mem_str o (valid_shift_ops fx)) | _ => false end)
        (negb (String.eqb (lower op) "mul")).
-Lemma ext_facts : forall op, mem_str op (ext_words false) = true -> ext_fact op = true.
+Lemma ext_facts : forall fx op, mem_str op (ext_words fx) = true -> ext_fact fx op = true.
 Proof.
-  intros w H. apply mem_str_In in H.
-  assert (F : forallb ext_fact (ext_words false) = true) by (vm_compute; reflexivity).
+  intros fx w H. apply mem_str_In in H.
+  assert (F : forallb (ext_fact fx) (ext_words fx) = true).
+  { destruct fx as [a b c d]. destruct a, c; vm_compute; reflexivity. }
   rewrite forallb_forall in F. exact (F w H).
 Qed.
 
@@ -152,9 +175,10 @@ Proof.
   assert (F : forallb word_ok cond_words = true) by (vm_compute; reflexivity).
   rewrite forallb_forall in F. exact (F w H).
 Qed.
-Lemma ext_word_ok : forall w, mem_str w (ext_words false) = true -> word_ok w = true.
+Lemma ext_word_ok : forall fx w, mem_str w (ext_words fx) = true -> word_ok w = true.
 Proof.
-  intros w H. apply mem_str_In in H.
-  assert (F : forallb word_ok (ext_words false) = true) by (vm_compute; reflexivity).
+  intros fx w H. apply mem_str_In in H.
+  assert (F : forallb word_ok (ext_words fx) = true).
+  { destruct fx as [a b c d]. destruct c; vm_compute; reflexivity. }
   rewrite forallb_forall in F. exact (F w H).
 Qed.
